@@ -10,7 +10,7 @@ convert_across_bridge convert_across_bridge_rev cross_kind_none gen_chains gen_w
 gen_weights_metric_length gen_weights_metric_weight gen_weights_memory gen_bridges gen_kinds_separate add_converts_right
 add_needs_conversion scale_keeps_unit ratio_is_number""".split()] + ["SCP.Lemmas.C12.calculateUnit_weights"] + \
     ["SCP.C12Exec." + t for t in """codeLex_mono strReplace_prefix executeCode_text executeCode_text_id lex_binary lex_single basicExecute_tree
-executeCode_mul executeCode_div executeCode_id gen_codes_ok gen_codes_multiply litOK_of_text readsBack_rat basicExecute_render""".split()]
+executeCode_mul executeCode_div executeCode_id gen_codes_ok gen_codes_multiply litOK_of_text readsBack_rat basicExecute_render step_up step_down""".split()]
 RULE = ("EXHAUSTIVE over all ordered pairs of configured units (33 x 33, same kind and different kinds) x amounts {0, 1, 2.5, 0.001, "
         "1e6, -3, 1234.5678, random} x a random parse spelling of the source and name of the target, 'a A to B' compared with the exact "
         "rational factor computed from config.json by an independent reading (rel 1e-9) and against the textbook definitions "
